@@ -60,7 +60,12 @@ func (i *ClusterIterator) loadRoute() {
 	if !ok {
 		panic("partID: could not be found in the routing table")
 	}
-	i.route = &route
+	// Work on a private copy. The owners are removed from the route when their scans
+	// are completed, that must not modify the owner lists of the routing table.
+	i.route = &Route{
+		PrimaryOwners: append([]string(nil), route.PrimaryOwners...),
+		ReplicaOwners: append([]string(nil), route.ReplicaOwners...),
+	}
 }
 
 func (i *ClusterIterator) updateCursor(owner string, cursor uint64) {
@@ -111,12 +116,14 @@ func (i *ClusterIterator) updateIterator(keys []string, cursor uint64, owner str
 	i.updateCursor(owner, cursor)
 }
 
+// getOwners returns the owners of the current partition that have not been scanned
+// to completion yet.
 func (i *ClusterIterator) getOwners() []string {
 	var raw []string
 	if i.config.Replica {
-		raw = i.routingTable[i.partID].ReplicaOwners
+		raw = i.route.ReplicaOwners
 	} else {
-		raw = i.routingTable[i.partID].PrimaryOwners
+		raw = i.route.PrimaryOwners
 	}
 	var owners []string
 	// Make a safe copy of the raw.
@@ -126,22 +133,28 @@ func (i *ClusterIterator) getOwners() []string {
 	return owners
 }
 
-func (i *ClusterIterator) removeScannedOwner(idx int) {
+// removeScannedOwner removes the owner from the route of the current partition. Its
+// cursor reached the end, scanning it again would restart from the beginning.
+func (i *ClusterIterator) removeScannedOwner(owner string) {
+	remove := func(owners []string) []string {
+		for idx, item := range owners {
+			if item == owner {
+				return append(owners[:idx], owners[idx+1:]...)
+			}
+		}
+		return owners
+	}
 	if i.config.Replica {
-		if len(i.route.ReplicaOwners) > 0 && len(i.route.ReplicaOwners) > idx {
-			i.route.ReplicaOwners = append(i.route.ReplicaOwners[:idx], i.route.ReplicaOwners[idx+1:]...)
-		}
+		i.route.ReplicaOwners = remove(i.route.ReplicaOwners)
 	} else {
-		if len(i.route.PrimaryOwners) > 0 && len(i.route.PrimaryOwners) > idx {
-			i.route.PrimaryOwners = append(i.route.PrimaryOwners[:idx], i.route.PrimaryOwners[idx+1:]...)
-		}
+		i.route.PrimaryOwners = remove(i.route.PrimaryOwners)
 	}
 }
 
 func (i *ClusterIterator) scanOnOwners() error {
 	owners := i.getOwners()
 
-	for idx, owner := range owners {
+	for _, owner := range owners {
 		cursor := i.loadCursor(owner)
 
 		// Build a scan command here
@@ -170,7 +183,7 @@ func (i *ClusterIterator) scanOnOwners() error {
 		}
 		i.updateIterator(keys, newCursor, owner)
 		if newCursor == 0 {
-			i.removeScannedOwner(idx)
+			i.removeScannedOwner(owner)
 		}
 	}
 	return nil
